@@ -132,6 +132,15 @@ def rule_message(ctx: Ctx) -> None:
     defaults_used = ".defaults" in ssc.text()
     ctx.tri("3-message", sp, sp.node, defaults_used and any(".defaults" in c or "defaults" in c for r in rj for c in r["conds"]), not defaults_used, "root arguments with a default count as available",
             "the computability test never looks at the defaults: requests that only need defaulted arguments are rejected", "use of the defaults in the test not recognised", key="defaults-available")
+    # an EMPTY set of provided inputs is a legal request ("what can be computed from defaults alone?"): the rejection may only
+    # be skipped when `inputs` is None, not when it is empty
+    ip = [p_.arg for p_ in sp.params if p_.annotation is not None and "None" in norm(p_.annotation) and norm(p_.annotation).startswith(("set", "Set", "Iterable", "frozenset"))]
+    if ip and rj:
+        name = ip[0]
+        truthy = [r for r in rj if any(c_ in (name, f"not {name}") for c_ in r["conds"])]
+        by_none = [r for r in rj if any(f"{name} is None" in c_ or f"{name} is not None" in c_ for c_ in r["conds"])]
+        ctx.tri("3-message", sp, truthy[0]["node"] if truthy else rj[-1]["node"], bool(by_none) and not truthy, bool(truthy), f"the computability check runs whenever `{name}` is given, also when it is empty",
+                f"the rejection is guarded by the truthiness of `{name}`: with an empty input set the check is skipped and an uncomputable sub-pipeline is returned", f"guard on `{name}` not recognised", key="empty-inputs-checked")
     vc = P.func("pipefunc.map._prepare._validate_complete_inputs")
     vsc = Scope(ctx, vc)
     rj = [r for f_ in vsc.funcs for r in rejections(ctx.cfg(f_), f_.node) if not r["dead"]]
@@ -166,8 +175,30 @@ def rule_forward(ctx: Ctx) -> None:
                 "the driver iterates the generations of the pipeline returned by prepare_run", f"the driver iterates {gens} but prepare_run's pipeline is bound to `{first}`: the unrestricted pipeline is run", key=f"uses-restricted {f.name}")
 
 
+def rule_returns_all(ctx: Ctx) -> None:
+    """What the drivers computed is what they return: the result mapping is keyed by SINGLE names (one entry per name of a
+    tuple output) while a request (`output_names`) holds OUTPUT_TYPE values (a tuple for a multi-output function), so the two
+    name kinds cannot be compared with `in` / set operations without `at_least_tuple`.  Filtering the results by the raw
+    request silently drops every multi-output function."""
+    P = ctx.prog
+    n = 0
+    for mn in ("pipefunc.map._run", "pipefunc.map._prepare", "pipefunc.map._load"):
+        for f in P.functions_in(mn):
+            req = [p_.arg for p_ in f.params if p_.annotation is not None and re.search(r"(set|list|Iterable)\[OUTPUT_TYPE\]", norm(p_.annotation))]
+            single = [p_.arg for p_ in f.params if p_.annotation is not None and re.match(r"(OrderedDict|dict|Dict|Mapping)\[str,", norm(p_.annotation))]
+            if not req:
+                continue
+            for c in [c for c in ast.walk(f.node) if isinstance(c, ast.Compare) and len(c.ops) == 1 and isinstance(c.ops[0], (ast.In, ast.NotIn)) and isinstance(c.comparators[0], ast.Name) and c.comparators[0].id in req]:
+                n += 1
+                left = c.left
+                from_single = isinstance(left, ast.Name) and any(any(isinstance(t, ast.Name) and t.id == left.id for t in ast.walk(it["target"])) and any(isinstance(x, ast.Name) and x.id in single for x in ast.walk(it["iter"])) for it in iterations(f.node))
+                ctx.tri("4-forward", f, c, False, from_single, "", f"`{norm(c)}` compares a single result name (a key of `{single[0] if single else '?'}`) with the requested OUTPUT_TYPEs: a requested tuple output never matches, so its results are dropped",
+                        f"`{norm(c)}`: kind of the left operand not traced", key=f"name-kinds {f.name}")
+    ctx.add("4-forward", "pipefunc.map", "", True, f"{n} membership test(s) against a request of OUTPUT_TYPEs examined", key="name-kinds-scan")
+
+
 def check(ctx: Ctx) -> None:
-    for rule in (rule_closure, rule_order, rule_message, rule_forward):
+    for rule in (rule_closure, rule_order, rule_message, rule_forward, rule_returns_all):
         ctx.run(rule)
 
 
